@@ -7,3 +7,6 @@ package options
 // Cookie options are configuration: written while options are loaded/validated, never by request handling
 // (scan "cookie-options-writers" in the root package).
 //@ stable Cookie.*
+
+// reverse-proxy mode is fixed when the options are loaded
+//@ stable Options.ReverseProxy
